@@ -1,5 +1,6 @@
 import RsModel.Lemmas.ModeTree
 import RsModel.Lemmas.EqViews
+import RsModel.Lemmas.CombModes
 /-! # final_source mode attributes like normal mode: the tree induction -/
 namespace Rs
 
@@ -55,10 +56,16 @@ end
 
 /-! ## the domain -/
 mutual
-/-- the trees covered: Raw / Original / SourceMapSource (no inner map; ASCII text, sorted map inside the text referencing
-existing entries) leaves under ConcatSource and ReplaceSource, no CachedSource -/
+/-- what a SourceMapSource *with an inner map* (the combinator) needs in addition: an outer map whose generated positions
+strictly increase, and an inner map referencing existing entries of its own tables -/
+def InnerHyp (map : SMap) : Option SMap → Prop
+  | none => True
+  | some im => (decode map.mappings).Pairwise mlt ∧ MapIdxOK im
+
+/-- the trees covered: Raw / Original / SourceMapSource (ASCII text, sorted map inside the text referencing existing entries; with
+or without an inner map) leaves under ConcatSource and ReplaceSource, no CachedSource -/
 def Src.ModeHyp : Src → Prop
-  | .sms t _ map _ inner _ => inner = none ∧ IsAscii t ∧ t.length ≤ USIZE_MAX ∧ sortedFrom 1 0 (decode map.mappings)
+  | .sms t _ map _ inner _ => InnerHyp map inner ∧ IsAscii t ∧ t.length ≤ USIZE_MAX ∧ sortedFrom 1 0 (decode map.mappings)
       ∧ (∀ m ∈ decode map.mappings, SegOK (splitLines t) (adv startPos t).line (adv startPos t).col m) ∧ MapIdxOK map
   | .concat cs => cs.ModeHyps
   | .replace inner rs => inner.ModeHyp ∧ (∀ r ∈ rs, r.start ≤ r.stop) ∧ (replaceSource inner.src rs).length + 1 < 2 ^ 32
@@ -74,8 +81,11 @@ theorem Src.modeHyp_base : ∀ (s : Src), s.ModeHyp → s.NoCached ∧ s.WF ∧ 
   | .raw .., _ | .rawStr .., _ | .rawBuf .., _ | .orig .., _ => ⟨trivial, trivial, trivial, trivial⟩
   | .sms t name map origSrc inner remove, h => by
     simp only [Src.ModeHyp] at h
-    obtain ⟨rfl, ha, hl, _, hseg, hidx⟩ := h
-    exact ⟨trivial, textOK_of_ascii t ha hl, ⟨ha, hl, fun _ m hm => (hseg m hm).1⟩, hidx⟩
+    obtain ⟨hinner, ha, hl, _, hseg, hidx⟩ := h
+    refine ⟨trivial, textOK_of_ascii t ha hl, ⟨ha, hl, fun _ m hm => (hseg m hm).1⟩, ?_⟩
+    cases inner with
+    | none => exact hidx
+    | some im => exact ⟨hidx, hinner.2⟩
   | .concat cs, h => by
     simp only [Src.ModeHyp] at h
     simpa [Src.NoCached, Src.WF, Src.PosHyp, Src.IdxHyp] using SrcList.modeHyps_base cs h
@@ -140,9 +150,13 @@ theorem Src.m3 : ∀ (s : Src), s.ModeHyp → M3 (s.stream ⟨true, true⟩ []).
     exact ⟨streamOriginal_final_sorted t name, streamOriginal_decls t name, streamOriginal_lookEq t name⟩
   | .sms t name map origSrc inner remove, h => by
     simp only [Src.ModeHyp] at h
-    obtain ⟨rfl, ha, hl, hs, hseg, _⟩ := h
+    obtain ⟨hinner, ha, hl, hs, hseg, _⟩ := h
     simp only [Src.stream, Src.src]
-    exact ⟨streamSM_final_sorted t map hs, streamSM_decls t map, streamSM_lookEq t map ha hl hs hseg⟩
+    cases inner with
+    | none => exact ⟨streamSM_final_sorted t map hs, streamSM_decls t map, streamSM_lookEq t map ha hl hs hseg⟩
+    | some im =>
+      obtain ⟨c1, c2, c3⟩ := streamCombined_m3 t map name origSrc im remove ha hl hs hinner.1 hseg
+      exact ⟨c1, c2, c3⟩
   | .concat .nil, _ => by
     simp only [Src.stream, Src.src, SrcList.srcs]
     exact ⟨by simp [concatStream, concatGo, chunkMs, sortedFrom], rfl, fun j hj => by simp at hj⟩
